@@ -250,6 +250,7 @@ def umonFor : String → List UMonitor
   | "C10" => monC10.map lift ++ umonC02
   | "C11" => monC11.map lift ++ umonC03
   | "C14" => monC14.map lift
+  | "C12" => []
   | _ => umonAll
 
 def ufirstSome (u : UCase) (st : List Step) : List UMonitor → Option String
